@@ -291,7 +291,15 @@ impl Node {
                         }
                     }
                     Err(e) => {
-                        if e.to_string().contains("Decode error") {
+                        // errors about the content of one complete frame leave the stream intact
+                        if matches!(
+                            e,
+                            edp_client::Error::Decode(_)
+                                | edp_client::Error::ContextualDecode(_)
+                                | edp_client::Error::TermConversion(_)
+                                | edp_client::Error::InvalidControlMessage(_)
+                                | edp_client::Error::Protocol(_)
+                        ) {
                             tracing::warn!(
                                 "Failed to decode message from {} (likely unsupported message type): {}",
                                 remote_node,
